@@ -812,6 +812,14 @@ fn main() {
             let tier = args.get(5).map(|s| s.as_str()).unwrap_or("quick");
             gen::generate(profile, seed, n, tier, &mut out);
         }
+        Some("genexh") => {
+            // genexh <profile> <depth> <shard> <nshards>
+            let profile = &args[2];
+            let depth: usize = args[3].parse().unwrap();
+            let shard: usize = args[4].parse().unwrap();
+            let nshards: usize = args[5].parse().unwrap();
+            gen::generate_exhaustive(profile, depth, shard, nshards, &mut out);
+        }
         Some("run") => {
             let stdin = io::stdin();
             run_script(stdin.lock(), &mut out);
